@@ -84,8 +84,10 @@ func msgBind(portal, stmt string, pfmts []uint16, params []bindParam, rfmts []ui
 	return typed('B', b)
 }
 
-func msgDescribe(kind byte, name string) []byte { return typed('D', append([]byte{kind}, cstr(name)...)) }
-func msgClose(kind byte, name string) []byte    { return typed('C', append([]byte{kind}, cstr(name)...)) }
+func msgDescribe(kind byte, name string) []byte {
+	return typed('D', append([]byte{kind}, cstr(name)...))
+}
+func msgClose(kind byte, name string) []byte { return typed('C', append([]byte{kind}, cstr(name)...)) }
 func msgExecute(name string, limit uint32) []byte {
 	return typed('E', append(cstr(name), be32(limit)...))
 }
@@ -94,7 +96,7 @@ func msgExecute(name string, limit uint32) []byte {
 
 func hxs(s string) string { return hex.EncodeToString([]byte(s)) }
 
-var colLetters = []byte("bsiltvyu")
+var colLetters = []byte("bsiltvyuz")
 
 type genCol struct {
 	letter byte
@@ -137,7 +139,7 @@ func genValFor(r *rand.Rand, letter byte) string {
 			return "i" + strconv.FormatInt(int64(int32(r.Uint32())), 10)
 		}
 		return "i" + strconv.FormatInt(int64(r.Uint64()>>uint(r.Intn(64))), 10)
-	case 't', 'v':
+	case 't', 'v', 'z':
 		return "t" + hex.EncodeToString(randBytes(r, r.Intn(6), false))
 	case 'y':
 		return "y" + hex.EncodeToString(randBytes(r, r.Intn(6), false))
@@ -230,6 +232,9 @@ func genCols(r *rand.Rand, max int) ([]genCol, string) {
 		if r.Intn(4) == 0 {
 			names := []string{"id", "name", "", "a b", "long_column_name_with_many_characters_0123456789", "é"}
 			parts[i] += "=" + hxs(names[r.Intn(len(names))])
+		}
+		if r.Intn(5) == 0 {
+			parts[i] += "~" // table id, attribute number, width and type modifier set on the column
 		}
 	}
 	return cols, strings.Join(parts, ",")
